@@ -124,7 +124,7 @@ func c17Path(r *rand.Rand, prefix string, t *c17Tree) string {
 func runC17(e *Env) {
 	// an application-wide path variable with the name StaticFiles uses for its own, stricter one
 	rux.SetGlobalVar("file", `[\w.-]+`)
-	e.Rule = "a sandbox tree (root with css/js/txt files, nested directories, a hidden file, files whose names end in the letters of an allowed extension without the dot; next to the root: secrets with and without allowed extensions, sibling directories rootx and root.bak, a same-named a.css, index.html pages) - every outside file carries a canary token; routers with StaticDir, StaticFiles (css|js, css), StaticFS(http.Dir), StaticFile under prefixes /s and /assets/v1 (also registered inside a group), the root spelled absolutely or relative to the working directory ('' and '.'), with/without UseEncodedPath and StrictLastSlash; request paths from a grammar of hostile segments (.., ., empty, %2e%2e, ..%2f, %2F, back-slashes, %00, NUL, trailing dots/blanks, case variants, absolute paths, over-long ../ chains, names of outside files), sent both as raw URL.Path (no client-side cleaning) and as escaped request targets parsed like a server. Oracle: no response body contains a canary or the name of an outside file; a 200 body that is not a directory listing equals a file under the root byte for byte; StaticFiles answers 200 only when the matched path ends in '.'+allowed extension; StaticFile returns only the configured file; no panic. Non-trivial: a path containing a dot-dot/encoded/absolute component or an outside name; distinct by (configuration, path). A second root is the dot-directory root/.pub (spelled absolutely or relatively) next to a decoy directory root/pub with same-named canary files; a global path variable named file is registered; segments with encoded ? and # behind forbidden file names; a file served by StaticFiles must itself carry an allowed extension. A third of the routers have a route cache of two entries and a second StaticFiles mount (/zz) with the other root; after the hostile requests: a file of the mount under test, two files of /zz, the first again."
+	e.Rule = "a sandbox tree (root with css/js/txt files, nested directories, a hidden file, files whose names end in the letters of an allowed extension without the dot; next to the root: secrets with and without allowed extensions, sibling directories rootx and root.bak, a same-named a.css, index.html pages) - every outside file carries a canary token; routers with StaticDir, StaticFiles (css|js, css), StaticFS(http.Dir), StaticFile under prefixes /s and /assets/v1 (also registered inside a group), the root spelled absolutely or relative to the working directory ('' and '.'), with/without UseEncodedPath and StrictLastSlash; request paths from a grammar of hostile segments (.., ., empty, %2e%2e, ..%2f, %2F, back-slashes, %00, NUL, trailing dots/blanks, case variants, absolute paths, over-long ../ chains, names of outside files), sent both as raw URL.Path (no client-side cleaning) and as escaped request targets parsed like a server. Oracle: no response body contains a canary or the name of an outside file; a 200 body that is not a directory listing equals a file under the root byte for byte; StaticFiles answers 200 only when the matched path ends in '.'+allowed extension; StaticFile returns only the configured file; no panic. Non-trivial: a path containing a dot-dot/encoded/absolute component or an outside name; distinct by (configuration, path). A second root is the dot-directory root/.pub (spelled absolutely or relatively) next to a decoy directory root/pub with same-named canary files; a global path variable named file is registered; segments with encoded ? and # behind forbidden file names; a file served by StaticFiles must itself carry an allowed extension. A third of the routers have a route cache of two entries and a second StaticFiles mount (/zz) with the other root; after the hostile requests: a file of the mount under test, two files of /zz, the first again. Every response must reach the writer as exactly one WriteHeader before any body byte. StaticFiles routers also have /legacy/{file}, re-dispatched internally to <prefix>/<file>.css (the extension filter applies to what is served). Relative dot-directory roots are mounted after a StaticDir of the similarly named decoy directory pub."
 	e.Assumptions = []string{
 		"symlinks inside the root pointing outside are not part of the statement's tree (http.Dir follows them by design)",
 		"directory listings (FileServer) are allowed as long as they list nothing outside the root",
@@ -188,6 +188,12 @@ func runC17(e *Env) {
 			prefix = "/grp/in"
 			reg = func(f func()) { router.Group("/grp", f) }
 		}
+		if relDir != "" && rootSpelling != rootAbs && (kind == "StaticDir" || kind == "StaticFiles") {
+			// another static mount registered before: the decoy directory "pub", whose name differs from the root
+			// ".pub" (".pub/", "./.pub") only by dots and slashes at its ends. Every mount serves its own directory.
+			router.StaticDir("/decoy-mount", "pub")
+			t.Count("requests.mount_of_a_similarly_named_directory_first", 1)
+		}
 		if chance(r, 1, 4) {
 			// an upload endpoint registered BEFORE the static handler: same prefix, same variable
 			// name, another method and a laxer regex. It must not influence what GET serves.
@@ -217,6 +223,14 @@ func runC17(e *Env) {
 				other = tree.Root
 			}
 			router.StaticFiles("/zz", other, "css|js")
+		}
+		if kind == "StaticFiles" {
+			// an old URL scheme kept alive by an internal rewrite: /legacy/<name> is re-dispatched to <prefix>/<name>.css
+			router.GET("/legacy/{file}", func(c *rux.Context) {
+				c.Req.URL.Path = prefix + "/" + c.Param("file") + ".css"
+				c.Req.URL.RawPath = ""
+				c.Router().HandleContext(c)
+			})
 		}
 		var cur string
 		t.Describe(func() any {
@@ -270,6 +284,11 @@ func runC17(e *Env) {
 			body := rec.Body.String()
 			status := rec.Status()
 			t.Tracef("%s -> status %d body %q", cur, status, truncate(body, 60))
+			if rec.NumWH() != 1 || (len(rec.Calls) > 0 && rec.Calls[0].Kind != "WH") {
+				// (the static handlers answer through the request's response writer like any handler)
+				t.Fail("static-handler-header-commits", "%s on %s(%s): the writer saw %s - expected exactly one WriteHeader, before any body byte", cur, kind, prefix, rec.CallLog())
+				return
+			}
 			if strings.Contains(body, c17Canary) {
 				t.Fail("outside-content-served", "%s on %s(%s, root %s): the response (status %d) contains bytes of a file outside the root: %q", cur, kind, prefix, rootAbs, status, truncate(body, 120))
 				return
@@ -329,6 +348,29 @@ func runC17(e *Env) {
 					}
 					if !okExt {
 						t.Fail("extension-filter-bypassed", "%s on StaticFiles(%s, exts %q): served %q although the request path does not end in an allowed extension", cur, prefix, exts, f)
+						return
+					}
+				}
+			}
+		}
+		if kind == "StaticFiles" {
+			for _, name := range []string{"c.txt", "styles.scss", "nojs", "a"} {
+				cur = fmt.Sprintf("GET /legacy/%s (re-dispatched to %s/%s.css)", name, prefix, name)
+				lrec, lpv, lpan := Serve(router, NewReq("GET", "/legacy/"+name))
+				t.Count("requests.legacy_rewrite", 1)
+				if lpan {
+					t.Fail("servehttp-panics", "%s: panicked: %v", cur, lpv)
+					return
+				}
+				lb := lrec.Body.String()
+				if strings.Contains(lb, c17Canary) {
+					t.Fail("outside-content-served", "%s: the response contains bytes of a file outside the root: %q", cur, truncate(lb, 120))
+					return
+				}
+				if lrec.Status() == 200 {
+					// "a.css" exists (name "a"): fine; anything else served here is a file without an allowed extension
+					if f, ok := insideByContent[lb]; !ok || !(strings.HasSuffix(f, ".css") || strings.HasSuffix(f, ".js") && exts == "css|js") {
+						t.Fail("extension-filter-bypassed:served-file", "%s on StaticFiles(%s, exts %q): served %q (file %q)", cur, prefix, exts, truncate(lb, 80), f)
 						return
 					}
 				}
